@@ -22,6 +22,7 @@ type Op struct {
 	Key  int    `json:"key"`
 	Val  int    `json:"val,omitempty"`
 	Stop int    `json:"stop,omitempty"` // range: stop after this many callbacks (0: never)
+	Mut  string `json:"mut,omitempty"`  // range: the callback itself calls "del" (Delete of the visited key) or "store" (Store to the next key)
 }
 
 func (o Op) String() string {
@@ -29,10 +30,14 @@ func (o Op) String() string {
 	case "store", "los":
 		return fmt.Sprintf("%s(%d,%d)", o.K, o.Key, o.Val)
 	case "range":
-		if o.Stop > 0 {
-			return fmt.Sprintf("range(stop@%d)", o.Stop)
+		x := "range"
+		if o.Mut != "" {
+			x += "+" + o.Mut + "-in-callback"
 		}
-		return "range"
+		if o.Stop > 0 {
+			return fmt.Sprintf("%s(stop@%d)", x, o.Stop)
+		}
+		return x
 	}
 	return fmt.Sprintf("%s(%d)", o.K, o.Key)
 }
@@ -94,10 +99,19 @@ func genOp(r *simrt.Rand, keys int, next *int) Op {
 	case "store", "los":
 		*next++
 		o.Val = *next
+		if r.Intn(12) == 0 {
+			o.Val = 0 // the zero value is a value like any other
+		}
 	case "range":
 		o.Key = 0
 		if r.Intn(3) == 0 {
 			o.Stop = 1 + r.Intn(2)
+		}
+		if r.Intn(4) == 0 {
+			// Range may call any method of the map from its callback
+			o.Mut = []string{"del", "store"}[r.Intn(2)]
+			*next++
+			o.Val = *next * 1000
 		}
 	}
 	return o
@@ -224,6 +238,19 @@ func (H) Shrink(sc any) []any {
 }
 
 func do(m *sync2.Map[int, int], o Op) Rec {
+	r, _ := doNested(m, o, 1)
+	return r
+}
+
+// doAll performs o and returns its record followed by the records of the calls
+// its Range callback made.
+func doAll(m *sync2.Map[int, int], o Op, keys int) []Rec {
+	r, nested := doNested(m, o, keys)
+	return append([]Rec{r}, nested...)
+}
+
+func doNested(m *sync2.Map[int, int], o Op, keys int) (Rec, []Rec) {
+	var nested []Rec
 	rec := Rec{Op: o}
 	rec.Inv = simrt.Stamp()
 	switch o.K {
@@ -242,6 +269,12 @@ func do(m *sync2.Map[int, int], o Op) Rec {
 		m.Range(func(k, v int) bool {
 			rec.Seen = append(rec.Seen, [2]int{k, v})
 			n++
+			switch o.Mut {
+			case "del":
+				nested = append(nested, do(m, Op{K: "del", Key: k}))
+			case "store":
+				nested = append(nested, do(m, Op{K: "store", Key: (k + 1) % keys, Val: o.Val + n}))
+			}
 			if o.Stop > 0 && n >= o.Stop {
 				rec.Stopped = true
 				return false
@@ -251,7 +284,7 @@ func do(m *sync2.Map[int, int], o Op) Rec {
 	}
 	rec.Ret = simrt.Stamp()
 	rec.Done = true
-	return rec
+	return rec, nested
 }
 
 // Execute implements core.Harness.
@@ -263,7 +296,7 @@ func (H) Execute(scAny any, cfg simrt.Config, st *core.Stats) (*simrt.Outcome, *
 	s.Go(func() {
 		for _, o := range sc.Prefix {
 			simrt.Yield()
-			hist[0] = append(hist[0], do(&m, o))
+			hist[0] = append(hist[0], doAll(&m, o, sc.Keys)...)
 		}
 		var wg ssync.WaitGroup
 		wg.Add(len(sc.Clients))
@@ -275,8 +308,7 @@ func (H) Execute(scAny any, cfg simrt.Config, st *core.Stats) (*simrt.Outcome, *
 					simrt.Yield()
 					// the record is appended before the call so that an operation
 					// that never returns is still in the history as pending
-					hist[1+i] = append(hist[1+i], Rec{Op: o, Inv: -1})
-					hist[1+i][len(hist[1+i])-1] = do(&m, o)
+					hist[1+i] = append(hist[1+i], doAll(&m, o, sc.Keys)...)
 				}
 			})
 		}
@@ -294,7 +326,7 @@ func (H) Execute(scAny any, cfg simrt.Config, st *core.Stats) (*simrt.Outcome, *
 		return out, v
 	}
 	if out.Truncated {
-		return out, nil
+		return out, core.NoProgress(out)
 	}
 	if out.Stuck {
 		return out, &core.Violation{Signature: "deadlock", Detail: "run ended with tasks blocked forever: " + strings.Join(out.StuckTasks, ", ")}
